@@ -1,0 +1,33 @@
+//go:build verif
+
+package coordinator
+
+// VerifRequestTypes exposes the request message type codes of the inter-node protocol
+// (by name) to the external verification harness, so that it frames requests with the
+// codes the working tree actually uses.
+func VerifRequestTypes() map[string]byte {
+	return map[string]byte{
+		"WriteShard":           writeShardRequestMessage,
+		"ExecuteStatement":     executeStatementRequestMessage,
+		"TaskManagerStatement": taskManagerStatementRequestMessage,
+		"MeasurementNames":     measurementNamesRequestMessage,
+		"TagKeys":              tagKeysRequestMessage,
+		"TagValues":            tagValuesRequestMessage,
+		"SeriesSketches":       seriesSketchesRequestMessage,
+		"MeasurementsSketches": measurementsSketchesRequestMessage,
+		"StoreReadFilter":      storeReadFilterRequestMessage,
+		"StoreReadGroup":       storeReadGroupRequestMessage,
+		"CreateIterator":       createIteratorRequestMessage,
+		"IteratorCost":         iteratorCostRequestMessage,
+		"FieldDimensions":      fieldDimensionsRequestMessage,
+		"MapType":              mapTypeRequestMessage,
+		"ExpandSources":        expandSourcesRequestMessage,
+		"BackupShard":          backupShardRequestMessage,
+		"CopyShard":            copyShardRequestMessage,
+		"RemoveShard":          removeShardRequestMessage,
+		"ListShards":           listShardsRequestMessage,
+		"JoinCluster":          joinClusterRequestMessage,
+		"LeaveCluster":         leaveClusterRequestMessage,
+		"RemoveHintedHandoff":  removeHintedHandoffRequestMessage,
+	}
+}
